@@ -95,10 +95,15 @@ pub fn scenario_repair<C: Suite>(rng: &mut TestRng, p: &Params, notes: &mut Note
     // who gets repaired: an existing member (needs t OTHER members) or a new identifier
     let new_id = n == t || rng.chance(35);
     let (participant, pool): (Id<C>, Vec<Id<C>>) = if new_id {
-        let cand = if rng.chance(50) {
-            need(Id::<C>::try_from(rng.range(20000, 30000) as u16), "id")?
-        } else {
-            need(Id::<C>::derive(format!("newcomer-{}", rng.below(1000)).as_bytes()), "derive")?
+        let cand = match rng.below(5) {
+            0 | 1 => need(Id::<C>::try_from(rng.range(20000, 30000) as u16), "id")?,
+            2 | 3 => need(Id::<C>::derive(format!("newcomer-{}", rng.below(1000)).as_bytes()), "derive")?,
+            _ => {
+                // an identifier from the edge of the scalar range (order-1, 2^top, ...)
+                let (name, s) = pick_boundary::<C>(rng, true);
+                notes.insert("repaired_identifier_scalar".into(), json!(name));
+                need(Id::<C>::new(s), "Identifier::new")?
+            }
         };
         if keys.ids.contains(&cand) {
             return skip("new identifier collides");
